@@ -265,7 +265,10 @@ def _decoy_session(world):
         p = Decoy()
         a = DecoyAlgorithm(p, name='decoy')
         a.options['max_processes'] = 1
-        a.evaluate([Individual([0.5] * (world.n + 1)), Individual([1.0] * (world.n + 1))])
+        try:
+            a.evaluate([Individual([0.5] * (world.n + 1)), Individual([1.0] * (world.n + 1))])
+        except Exception:
+            pass            # the decoy is environment, not under judgement: whatever it does must not end the run here
         if world.D.dec('cfg', 'decoyrun', 3) == 1:
             # ... and optimised with one of the population algorithms (whatever those keep at class or module level)
             import types
